@@ -13,7 +13,7 @@ def one(seed):
         subprocess.run(f"git -C /repo archive HEAD | tar -x -C {d} && cd {d} && git apply {V}/seeded/{seed}/patch.diff", shell=True, check=True, capture_output=True)
         out = []
         for c in checks:
-            p = subprocess.run(f"/venv/bin/python {V}/sa/run.py {c} --repo {d}", shell=True, cwd=V, capture_output=True, text=True, env=dict(os.environ, VERIF_EVIDENCE_DIR=f"{d}/_ev"))
+            p = subprocess.run(f"/venv/bin/python {V}/sa/run.py {c} --repo {d}", shell=True, cwd=V, capture_output=True, text=True, errors="replace", env=dict(os.environ, VERIF_EVIDENCE_DIR=f"{d}/_ev"))
             rules = sorted(set(re.findall(r"^  rule ([A-Za-z0-9_()-]+)", p.stdout, re.M)))
             err = [l[:160] for l in p.stdout.splitlines() if l.startswith("ANALYSIS-ERROR")]
             out.append(f"{c}:{p.returncode}{' ' + ','.join(rules) if rules else ''}{' ' + err[0] if err else ''}")
